@@ -7,7 +7,7 @@ CONSTANTS D = 3
   MVals = {"A", "B"}
   CVals = {"-"}
   RVals = {"-", "90"}
-  SVals = {"-", "R1"}
+  SVals = {"-"}
   PendVals = {TRUE, FALSE}
   Variant = "ok"
 INVARIANTS NoPanic TailInv DepthBound EffectiveSoFar RootDone PageNumbers NoLostCallback FutInv
